@@ -3,7 +3,7 @@
    selectors are of the forms the parser builds ([lex_safe]: no bare index, no bare filter;
    implied by Reparsable.reparsable, see reparsable_lex_safe; needed, see lex_print_unsafe_refuted). *)
 From JP Require Import Base Json PyStr PyJsonStr Syntax Gen_unicode Lex Parse Serialize TokPrint Printable
-                       Gate Reparsable NormPath PyStrLemmas LocationProofs LexProofs LexSteps.
+                       Gate Reparsable TokensOk NormPath PyStrLemmas LocationProofs LexProofs LexSteps.
 
 (* ---------------------------------------------------------------------- *)
 (* the shape of repr(float) *)
@@ -302,16 +302,51 @@ Proof.
   intros H. destruct l; try exact H. cbn [wrap_operand]. destruct (is_logical o); [exact H|ghc].
 Qed.
 
+(* the configurable identifiers *)
+Lemma base_root E : In (TRoot, e_root E) (env_base E). Proof. cbn; tauto. Qed.
+Lemma base_fake E : In (TFakeRoot, e_fake_root E) (env_base E). Proof. cbn; tauto. Qed.
+Lemma base_self E : In (TSelf, e_self E) (env_base E). Proof. cbn; tauto. Qed.
+Lemma base_key E : In (TKey, e_key E) (env_base E). Proof. cbn; tauto. Qed.
+Lemma base_union E : In (TUnion, e_union E) (env_base E). Proof. cbn; tauto. Qed.
+Lemma base_inter E : In (TIntersect, e_intersection E) (env_base E). Proof. cbn; tauto. Qed.
+Lemma base_ctx E : In (TFilterCtx, e_filter_context E) (env_base E). Proof. cbn; tauto. Qed.
+Lemma base_keys E : In (TKeys, e_keys E) (env_base E). Proof. cbn; tauto. Qed.
+
+Lemma ident_head E k t y : tokens_ok E = true -> In (k, t) (env_base E) -> good_head (t ++ y).
+Proof.
+  intros HT Hin. destruct (tokens_ok_base E HT) as [Hsp _]. pose proof (Hsp k t Hin) as Ht.
+  pose proof (spelling_signs t Ht) as Hsg. destruct t as [|c t']; [discriminate Ht|].
+  cbn [forallb] in Hsg. apply andb_true_iff in Hsg as [Hc _].
+  destruct (sign_facts c Hc) as [_ [_ [_ [_ [N58 [_ [N61 [_ [_ [_ [_ Hsp']]]]]]]]]]].
+  exists c, (t' ++ y). split; [reflexivity|]. auto.
+Qed.
+
+Lemma ident_head0 E k t : tokens_ok E = true -> In (k, t) (env_base E) -> good_head t.
+Proof. intros HT Hin. rewrite <- (app_nil_r t). apply (ident_head E k t [] HT Hin). Qed.
+
+Lemma num_head_nonsign c : num_head c -> sign_char c = false.
+Proof.
+  intros H. destruct (sign_char c) eqn:E; [|reflexivity]. exfalso.
+  destruct (num_head_facts c H) as [_ [_ [_ [_ Hlow]]]].
+  apply sign_cases in E. destruct H as [H| ->].
+  - apply digit_bounds in H. lia.
+  - repeat (destruct E as [E|E]; [discriminate E|]). discriminate E.
+Qed.
+
+Lemma DE_nonsign rest : DE rest -> nonsign_head rest.
+Proof.
+  intros H. destruct H; reflexivity.
+Qed.
+
 Section Heads.
   Variable E : env.
   Variable ro : ustr -> option bool.
-  Hypothesis HE : default_tokens E.
+  Hypothesis HE : tokens_ok E = true.
 
   Lemma expr_head : forall e, pr_expr ro e = true ->
     (forall x, expr_text E e = Ok x -> good_head x) /\
     (forall par x, canon_text E e par = Ok x -> good_head x).
   Proof.
-    destruct HE as [Hroot [Hfake [Hself [Hkey [Huni [Hint [Hctx Hkeys]]]]]]].
     induction e as [| | b | z | n | s | p fl | items | r IHr | l IHl o r IHr | p | fake p | p | | name args];
       intros Hpr;
       try (split; [intros x Hx|intros par x Hx; rewrite ct_leaf in Hx by reflexivity]).
@@ -355,16 +390,20 @@ Section Heads.
           apply bind_ok in Hx as [a [Ha Hx]]. apply bind_ok in Hx as [b [Hb Hx]].
           cbv zeta in Hx. destruct (Nat.leb 7 par); injection Hx as <-; [ghc|].
           apply good_head_app. apply wrap_head. apply IHl1. exact Ha.
-    - rewrite et_self in Hx. apply bind_ok in Hx as [xs [_ Hx]]. injection Hx as <-. rewrite Hself. ghc.
-    - rewrite et_self in Hx. apply bind_ok in Hx as [xs [_ Hx]]. injection Hx as <-. rewrite Hself. ghc.
+    - rewrite et_self in Hx. apply bind_ok in Hx as [xs [_ Hx]]. injection Hx as <-.
+      apply (ident_head E TSelf _ _ HE (base_self E)).
+    - rewrite et_self in Hx. apply bind_ok in Hx as [xs [_ Hx]]. injection Hx as <-.
+      apply (ident_head E TSelf _ _ HE (base_self E)).
     - rewrite et_root in Hx. apply bind_ok in Hx as [xs [_ Hx]]. injection Hx as <-.
-      destruct fake; [rewrite Hfake|rewrite Hroot]; ghc.
+      destruct fake; [apply (ident_head E TFakeRoot _ _ HE (base_fake E))|apply (ident_head E TRoot _ _ HE (base_root E))].
     - rewrite et_root in Hx. apply bind_ok in Hx as [xs [_ Hx]]. injection Hx as <-.
-      destruct fake; [rewrite Hfake|rewrite Hroot]; ghc.
-    - rewrite et_ctx in Hx. apply bind_ok in Hx as [xs [_ Hx]]. injection Hx as <-. rewrite Hctx. ghc.
-    - rewrite et_ctx in Hx. apply bind_ok in Hx as [xs [_ Hx]]. injection Hx as <-. rewrite Hctx. ghc.
-    - injection Hx as <-. rewrite Hkey. ghc.
-    - injection Hx as <-. rewrite Hkey. ghc.
+      destruct fake; [apply (ident_head E TFakeRoot _ _ HE (base_fake E))|apply (ident_head E TRoot _ _ HE (base_root E))].
+    - rewrite et_ctx in Hx. apply bind_ok in Hx as [xs [_ Hx]]. injection Hx as <-.
+      apply (ident_head E TFilterCtx _ _ HE (base_ctx E)).
+    - rewrite et_ctx in Hx. apply bind_ok in Hx as [xs [_ Hx]]. injection Hx as <-.
+      apply (ident_head E TFilterCtx _ _ HE (base_ctx E)).
+    - injection Hx as <-. apply (ident_head0 E TKey _ HE (base_key E)).
+    - injection Hx as <-. apply (ident_head0 E TKey _ HE (base_key E)).
     - rewrite et_func in Hx. apply bind_ok in Hx as [xs [_ Hx]]. injection Hx as <-.
       cbn [pr_expr] in Hpr. apply andb_true_iff in Hpr as [Hn _].
       unfold fname_ok in Hn. destruct name as [|c [|c2 t]]; try discriminate.
@@ -388,7 +427,7 @@ End Heads.
 Section Main.
   Variable E : env.
   Variable ro : ustr -> option bool.
-  Hypothesis HE : default_tokens E.
+  Hypothesis HE : tokens_ok E = true.
 
   Definition lexes (x : ustr) (ts : list token) (D : ustr -> Prop) : Prop :=
     forall rest, D rest -> tokenize E (x ++ rest) = ts ++ tokenize E rest.
@@ -502,7 +541,7 @@ Section Main.
     forall x ts, seg_text E g = Ok x -> seg_toks E g = Ok ts -> lexes x ts (fun _ => True).
   Definition Pp (p : segs) : Prop :=
     pr_segs ro p = true -> ls_segs p = true ->
-    forall x ts, segs_text E p = Ok x -> segs_toks E p = Ok ts -> lexes x ts nud.
+    forall x ts, segs_text E p = Ok x -> segs_toks E p = Ok ts -> lexes x ts (fun _ => True).
 
   Lemma Pe_leaf e :
     is_compound e = false ->
@@ -649,52 +688,79 @@ Section Main.
           [apply paren_lexes; apply Hcmp; assumption|apply Hcmp; assumption].
   Qed.
 
-  Lemma DE_nud' rest : DE rest -> nud rest.
-  Proof. apply DE_nud. Qed.
+  Lemma seg_text_nonsign g x : seg_text E g = Ok x -> exists c y, x = c :: y /\ sign_char c = false.
+  Proof.
+    intros Hx. destruct g as [s| |items].
+    - destruct s as [k|i|a b c| | |e].
+      + injection Hx as <-. eexists; eexists; split; reflexivity.
+      + rewrite gt_sel_other in Hx by exact I. injection Hx as <-.
+        destruct (str_of_Z_shape i) as [sg [ds [Es [Hsg [Hne Hd]]]]].
+        destruct (num_text_head sg ds [] Hsg Hne Hd) as [c [y [Hs Hc]]].
+        rewrite app_nil_r in Hs. rewrite Es, Hs. exists c, y. split; [reflexivity|].
+        apply num_head_nonsign. exact Hc.
+      + rewrite gt_slice in Hx. apply bind_ok in Hx as [y [_ Hx]]. injection Hx as <-.
+        eexists; eexists; split; reflexivity.
+      + injection Hx as <-. eexists; eexists; split; reflexivity.
+      + injection Hx as <-. eexists; eexists; split; reflexivity.
+      + rewrite gt_sel_other in Hx by exact I. rewrite st_filter in Hx.
+        apply bind_ok in Hx as [y [_ Hx]]. injection Hx as <-. eexists; eexists; split; reflexivity.
+    - injection Hx as <-. eexists; eexists; split; reflexivity.
+    - rewrite gt_list in Hx. apply bind_ok in Hx as [xs [_ Hx]]. injection Hx as <-.
+      eexists; eexists; split; reflexivity.
+  Qed.
+
+  Lemma segs_text_nonsign p xs rest :
+    segs_text E p = Ok xs -> nonsign_head rest -> nonsign_head (xs ++ rest).
+  Proof.
+    intros Hx Hr. destruct p as [|g r].
+    - injection Hx as <-. exact Hr.
+    - rewrite pt_cons in Hx. apply bind_ok in Hx as [xg [Hxg Hx]]. apply bind_ok in Hx as [xr [_ Hx]].
+      injection Hx as <-. destruct (seg_text_nonsign g xg Hxg) as [c [y [-> Hc]]]. exact Hc.
+  Qed.
 
   Lemma case_self p : Pp p -> Pe (FSelf p).
   Proof.
     intros IH Hpr Hls. apply Pe_leaf; [reflexivity| |exact Hpr|exact Hls].
     cbn [pr_expr] in Hpr. cbn [ls_expr] in Hls.
-    destruct HE as [_ [_ [Hself _]]].
     intros x ts Hx Ht. rewrite et_self in Hx. rewrite ek_self in Ht.
     apply bind_ok in Hx as [xs [Hxs Hx]]. apply bind_ok in Ht as [tss [Htss Ht]].
-    injection Hx as <-. injection Ht as <-. rewrite Hself.
-    intros rest HD. cbn [app]. rewrite (tok_self E HE).
-    rewrite (IH Hpr Hls xs tss Hxs Htss rest (DE_nud rest HD)). reflexivity.
+    injection Hx as <-. injection Ht as <-.
+    intros rest HD. rewrite <- app_assoc.
+    rewrite (tok_ident E HE TSelf _ _ (base_self E) (segs_text_nonsign p xs rest Hxs (DE_nonsign rest HD))).
+    rewrite (IH Hpr Hls xs tss Hxs Htss rest I). reflexivity.
   Qed.
 
   Lemma case_root fake p : Pp p -> Pe (FRoot fake p).
   Proof.
     intros IH Hpr Hls. apply Pe_leaf; [reflexivity| |exact Hpr|exact Hls].
     cbn [pr_expr] in Hpr. cbn [ls_expr] in Hls.
-    destruct HE as [Hroot [Hfake _]].
     intros x ts Hx Ht. rewrite et_root in Hx. rewrite ek_root in Ht.
     apply bind_ok in Hx as [xs [Hxs Hx]]. apply bind_ok in Ht as [tss [Htss Ht]].
     injection Hx as <-. injection Ht as <-.
-    intros rest HD. pose proof (IH Hpr Hls xs tss Hxs Htss rest (DE_nud rest HD)) as Hp.
-    destruct fake.
-    - rewrite Hfake. cbn [app]. rewrite (tok_fake_root E HE). rewrite Hp. reflexivity.
-    - rewrite Hroot. cbn [app]. rewrite (tok_root E HE). rewrite Hp. reflexivity.
+    intros rest HD. pose proof (IH Hpr Hls xs tss Hxs Htss rest I) as Hp.
+    pose proof (segs_text_nonsign p xs rest Hxs (DE_nonsign rest HD)) as Hn.
+    rewrite <- app_assoc. destruct fake.
+    - rewrite (tok_ident E HE TFakeRoot _ _ (base_fake E) Hn). rewrite Hp. reflexivity.
+    - rewrite (tok_ident E HE TRoot _ _ (base_root E) Hn). rewrite Hp. reflexivity.
   Qed.
 
   Lemma case_ctx p : Pp p -> Pe (FCtx p).
   Proof.
     intros IH Hpr Hls. apply Pe_leaf; [reflexivity| |exact Hpr|exact Hls].
     cbn [pr_expr] in Hpr. cbn [ls_expr] in Hls.
-    destruct HE as [_ [_ [_ [_ [_ [_ [Hctx _]]]]]]].
     intros x ts Hx Ht. rewrite et_ctx in Hx. rewrite ek_ctx in Ht.
     apply bind_ok in Hx as [xs [Hxs Hx]]. apply bind_ok in Ht as [tss [Htss Ht]].
-    injection Hx as <-. injection Ht as <-. rewrite Hctx.
-    intros rest HD. cbn [app]. rewrite (tok_ctx E HE).
-    rewrite (IH Hpr Hls xs tss Hxs Htss rest (DE_nud rest HD)). reflexivity.
+    injection Hx as <-. injection Ht as <-.
+    intros rest HD. rewrite <- app_assoc.
+    rewrite (tok_ident E HE TFilterCtx _ _ (base_ctx E) (segs_text_nonsign p xs rest Hxs (DE_nonsign rest HD))).
+    rewrite (IH Hpr Hls xs tss Hxs Htss rest I). reflexivity.
   Qed.
 
   Lemma case_key : Pe FKey.
   Proof.
-    apply Pe_leaf; [reflexivity|]. destruct HE as [_ [_ [_ [Hkey _]]]].
-    intros x ts Hx Ht. injection Hx as <-. injection Ht as <-. rewrite Hkey.
-    intros rest HD. cbn [app]. rewrite (tok_key E HE). reflexivity.
+    apply Pe_leaf; [reflexivity|].
+    intros x ts Hx Ht. injection Hx as <-. injection Ht as <-.
+    intros rest HD. apply (tok_ident E HE TKey _ _ (base_key E) (DE_nonsign rest HD)).
   Qed.
 
   Lemma good_head_nospace y : good_head y -> nospace_head y.
@@ -782,9 +848,9 @@ Section Main.
 
   Lemma case_skeys : Ps SKeys.
   Proof.
-    destruct HE as [_ [_ [_ [_ [_ [_ [_ Hkeys]]]]]]].
-    intros _ _ x ts Hx Ht. injection Hx as <-. injection Ht as <-. rewrite Hkeys.
-    apply both_of_head; [|ghc]. intros rest _. cbn [app]. apply (tok_keys E HE).
+    intros _ _ x ts Hx Ht. injection Hx as <-. injection Ht as <-.
+    apply both_of_head; [|apply (ident_head0 E TKeys _ HE (base_keys E))].
+    intros rest HD. apply (tok_ident E HE TKeys _ _ (base_keys E) (DE_nonsign rest HD)).
   Qed.
 
   Lemma case_sfilter e : Pe e -> Ps (SFilter e).
@@ -830,9 +896,10 @@ Section Main.
       rewrite (tok_rbracket E HE). reflexivity.
     - injection Hx as <-. injection Ht as <-. intros rest _. cbn [app].
       rewrite (tok_lbracket E HE), (tok_wild E HE), (tok_rbracket E HE). reflexivity.
-    - destruct HE as [_ [_ [_ [_ [_ [_ [_ Hkeys]]]]]]].
-      injection Hx as <-. injection Ht as <-. rewrite Hkeys. intros rest _. cbn [app].
-      rewrite (tok_lbracket E HE), (tok_keys E HE), (tok_rbracket E HE). reflexivity.
+    - injection Hx as <-. injection Ht as <-. intros rest _.
+      cbn [app]. rewrite <- app_assoc. cbn [app]. rewrite (tok_lbracket E HE).
+      rewrite (tok_ident E HE TKeys _ (93%N :: rest) (base_keys E) eq_refl).
+      rewrite (tok_rbracket E HE). reflexivity.
   Qed.
 
   Lemma case_gdescent : Pg GDescent.
@@ -865,7 +932,7 @@ Section Main.
     injection Hx as <-. injection Ht as <-.
     intros rest HD. rewrite <- !app_assoc.
     rewrite (IHg Hpg Hlg Hbare xg tg Hxg Htg (xr ++ rest) I).
-    rewrite (IHr Hpr Hlr xr tr Hxr Htr rest HD). reflexivity.
+    rewrite (IHr Hpr Hlr xr tr Hxr Htr rest I). reflexivity.
   Qed.
 
   Theorem text_tokens :
@@ -908,22 +975,23 @@ Section Main.
   (* paths, compound queries *)
   Lemma path_lexes p x ts :
     pr_segs ro (p_segs p) = true -> ls_segs (p_segs p) = true ->
-    path_text E p = Ok x -> path_toks E p = Ok ts -> lexes x ts nud /\ good_head x.
+    path_text E p = Ok x -> path_toks E p = Ok ts -> lexes x ts nonsign_head /\ good_head x.
   Proof.
     intros Hpr Hls Hx Ht. unfold path_text in Hx. unfold path_toks in Ht.
     apply bind_ok in Hx as [xs [Hxs Hx]]. apply bind_ok in Ht as [tss [Htss Ht]].
     injection Hx as <-. injection Ht as <-.
     destruct text_tokens as [_ [_ [_ [_ [_ Hp]]]]].
     pose proof (Hp (p_segs p) Hpr Hls xs tss Hxs Htss) as Hl.
-    destruct HE as [Hroot [Hfake _]].
     destruct (p_fake p).
-    - rewrite Hfake. split; [|ghc]. intros rest HD. cbn [app]. rewrite (tok_fake_root E HE).
-      rewrite (Hl rest HD). reflexivity.
-    - rewrite Hroot. split; [|ghc]. intros rest HD. cbn [app]. rewrite (tok_root E HE).
-      rewrite (Hl rest HD). reflexivity.
+    - split; [|apply (ident_head E TFakeRoot _ _ HE (base_fake E))]. intros rest HD. rewrite <- app_assoc.
+      rewrite (tok_ident E HE TFakeRoot _ _ (base_fake E) (segs_text_nonsign _ xs rest Hxs HD)).
+      rewrite (Hl rest I). reflexivity.
+    - split; [|apply (ident_head E TRoot _ _ HE (base_root E))]. intros rest HD. rewrite <- app_assoc.
+      rewrite (tok_ident E HE TRoot _ _ (base_root E) (segs_text_nonsign _ xs rest Hxs HD)).
+      rewrite (Hl rest I). reflexivity.
   Qed.
 
-  Lemma rest_text_nud l x : rest_text E l = Ok x -> nud x.
+  Lemma rest_text_nud l x : rest_text E l = Ok x -> nonsign_head x.
   Proof.
     destruct l as [|[o p] l']; cbn [rest_text]; intros H.
     - injection H as <-. exact I.
@@ -935,7 +1003,6 @@ Section Main.
     forallb (fun op => ls_segs (p_segs (snd op))) l = true ->
     rest_text E l = Ok x -> rest_toks E l = Ok ts -> tokenize E x = ts.
   Proof.
-    destruct HE as [_ [_ [_ [_ [Huni [Hint _]]]]]].
     induction l as [|[o p] l' IH]; intros x ts Hpr Hls Hx Ht; cbn [rest_text rest_toks] in Hx, Ht.
     - injection Hx as <-. injection Ht as <-. reflexivity.
     - cbn [forallb snd] in Hpr, Hls.
@@ -947,13 +1014,15 @@ Section Main.
       pose proof (IH xs tss Hp2 Hl2 Hxs Htss) as Hrest.
       pose proof (rest_text_nud l' xs Hxs) as Hn.
       unfold sp. destruct o.
-      + rewrite Huni. cbn [app].
-        rewrite (tok_space E HE 124%N) by (reflexivity || discriminate).
-        rewrite (tok_union E HE). rewrite (tok_space_head (xp ++ xs)) by (apply good_head_app; exact Hhp).
+      + rewrite (tok_space_head (e_union E ++ 32%N :: xp ++ xs))
+          by (apply (ident_head E TUnion _ _ HE (base_union E))).
+        rewrite (tok_ident E HE TUnion _ (32%N :: xp ++ xs) (base_union E) eq_refl).
+        rewrite (tok_space_head (xp ++ xs)) by (apply good_head_app; exact Hhp).
         rewrite (Hlp xs Hn). rewrite Hrest. reflexivity.
-      + rewrite Hint. cbn [app].
-        rewrite (tok_space E HE 38%N) by (reflexivity || discriminate).
-        rewrite (tok_intersect E HE). rewrite (tok_space_head (xp ++ xs)) by (apply good_head_app; exact Hhp).
+      + rewrite (tok_space_head (e_intersection E ++ 32%N :: xp ++ xs))
+          by (apply (ident_head E TIntersect _ _ HE (base_inter E))).
+        rewrite (tok_ident E HE TIntersect _ (32%N :: xp ++ xs) (base_inter E) eq_refl).
+        rewrite (tok_space_head (xp ++ xs)) by (apply good_head_app; exact Hhp).
         rewrite (Hlp xs Hn). rewrite Hrest. reflexivity.
   Qed.
 
@@ -979,8 +1048,22 @@ Theorem lex_print_partial :
     query_text E q = Ok t -> query_toks E q = Ok ts ->
     tokenize E t = ts.
 Proof.
-  intros E re_ok q t ts HE Hpr Hls Hx Ht. apply (query_lexes E re_ok HE q t ts Hpr Hls Hx Ht).
+  intros E re_ok q t ts HE Hpr Hls Hx Ht.
+  apply (query_lexes E re_ok (default_tokens_ok E HE) q t ts Hpr Hls Hx Ht).
 Qed.
+
+(* the same for every admissible assignment of spellings to the eight identifiers (C17) *)
+Theorem lex_print_env_safe :
+  forall (E : env) re_ok (q : query) (t : ustr) (ts : list token),
+    tokens_ok E = true -> printable re_ok q = true -> lex_safe q = true ->
+    query_text E q = Ok t -> query_toks E q = Ok ts ->
+    tokenize E t = ts.
+Proof.
+  intros E re_ok q t ts HT Hpr Hls Hx Ht. apply (query_lexes E re_ok HT q t ts Hpr Hls Hx Ht).
+Qed.
+
+Definition default_tokens_ok : forall E, default_tokens E -> tokens_ok E = true :=
+  LexSteps.default_tokens_ok.
 
 (* two bare slices in a row (what "$1:2 3:4" compiles to) are printed in brackets and read back
    as the same tokens *)
@@ -1180,6 +1263,16 @@ Theorem lex_print_reparsable :
     tokenize E t = ts.
 Proof.
   intros E re_ok q t ts HE Hpr Hrp. apply (lex_print_partial E re_ok q t ts HE Hpr).
+  apply (reparsable_lex_safe E re_ok q Hrp Hpr).
+Qed.
+
+Theorem lex_print_env :
+  forall (E : env) re_ok (q : query) (t : ustr) (ts : list token),
+    tokens_ok E = true -> printable re_ok q = true -> reparsable E q = true ->
+    query_text E q = Ok t -> query_toks E q = Ok ts ->
+    tokenize E t = ts.
+Proof.
+  intros E re_ok q t ts HT Hpr Hrp. apply (lex_print_env_safe E re_ok q t ts HT Hpr).
   apply (reparsable_lex_safe E re_ok q Hrp Hpr).
 Qed.
 
